@@ -113,6 +113,7 @@ func (m *Metadata) Validate() error {
 		if lastID > transport.ID() {
 			return errors.New("metadata transports must be sorted by ID")
 		}
+		lastID = transport.ID()
 	}
 
 	//TODO: Assert all IDs are known and transports are unique once we discuss what's techincally valid?
